@@ -203,6 +203,62 @@ class Index:
         out['*dynamic*'] = '*' in assigned
         return out
 
+    def method_rows(self, key, name, start=0, depth=0):
+        """the list of row expressions a table-building method returns for an instance of class `key`: `return [rows]`,
+        `return super().m() + [rows]`, or `t = super().m(); t.append(row) / t.extend([rows]) / t += [rows]; return t` -
+        followed through the MRO.  None when the method is not of that shape."""
+        import ast
+        if depth > 6:
+            return None
+        mro = self.mro(key)
+        for i in range(start, len(mro)):
+            m = self.methods(mro[i]).get(name) if mro[i] in self.classes else None
+            if m is None:
+                continue
+            body = [st for st in m.body if not (isinstance(st, ast.Expr) and isinstance(st.value, ast.Constant))]
+
+            def rows_of(e, env):
+                if isinstance(e, (ast.List, ast.Tuple)) and not any(isinstance(x, ast.Starred) for x in e.elts):
+                    return list(e.elts)
+                if isinstance(e, ast.Name) and e.id in env:
+                    return list(env[e.id])
+                if isinstance(e, ast.Call) and isinstance(e.func, ast.Attribute) and e.func.attr == name and isinstance(e.func.value, ast.Call) \
+                        and isinstance(e.func.value.func, ast.Name) and e.func.value.func.id == 'super' and not e.args:
+                    return self.method_rows(key, name, i + 1, depth + 1)
+                if isinstance(e, ast.Call) and isinstance(e.func, ast.Name) and e.func.id in ('list', 'tuple') and len(e.args) == 1:
+                    return rows_of(e.args[0], env)
+                if isinstance(e, ast.BinOp) and isinstance(e.op, ast.Add):
+                    a, b = rows_of(e.left, env), rows_of(e.right, env)
+                    return None if a is None or b is None else a + b
+                return None
+            env = {}
+            for st in body:
+                if isinstance(st, ast.Assign) and len(st.targets) == 1 and isinstance(st.targets[0], ast.Name):
+                    r = rows_of(st.value, env)
+                    if r is None:
+                        return None
+                    env[st.targets[0].id] = r
+                elif isinstance(st, ast.AugAssign) and isinstance(st.target, ast.Name) and isinstance(st.op, ast.Add) and st.target.id in env:
+                    r = rows_of(st.value, env)
+                    if r is None:
+                        return None
+                    env[st.target.id] = env[st.target.id] + r
+                elif isinstance(st, ast.Expr) and isinstance(st.value, ast.Call) and isinstance(st.value.func, ast.Attribute) and isinstance(st.value.func.value, ast.Name) \
+                        and st.value.func.value.id in env and st.value.func.attr in ('append', 'extend') and len(st.value.args) == 1:
+                    if st.value.func.attr == 'append':
+                        env[st.value.func.value.id] = env[st.value.func.value.id] + [st.value.args[0]]
+                    else:
+                        r = rows_of(st.value.args[0], env)
+                        if r is None:
+                            return None
+                        env[st.value.func.value.id] = env[st.value.func.value.id] + r
+                elif isinstance(st, ast.Return):
+                    return rows_of(st.value, env) if st.value is not None else None
+                else:
+                    return None
+            return None
+        return None
+
     def specialised(self, key, meth, func=None):
         """the method `meth` (or the given definition `func`) as an instance of exactly class `key` runs it: found through the
         MRO, with `self.NAME` replaced by the class-level literal NAME resolves to for that class, tests on those literals
@@ -216,10 +272,20 @@ class Index:
         consts = dict(self.class_constants(key))
         dynamic = consts.pop('*dynamic*', False)
         f = copy.deepcopy(func)
-        if not consts:
-            return f
         a = f.args.posonlyargs + f.args.args
         sname = a[0].arg if a else 'self'
+        # loops over a table built by a method of the class: for .. in self.m()  ->  for .. in [rows the method returns for this class]
+        changed = False
+        for loop in ast.walk(f):
+            it = getattr(loop, 'iter', None)
+            if isinstance(loop, (ast.For, ast.comprehension)) and isinstance(it, ast.Call) and isinstance(it.func, ast.Attribute) and isinstance(it.func.value, ast.Name) \
+                    and it.func.value.id == sname and not it.args and not it.keywords:
+                rows = self.method_rows(key, it.func.attr)
+                if rows is not None:
+                    loop.iter = ast.copy_location(ast.List(elts=[copy.deepcopy(r) for r in rows], ctx=ast.Load()), it)
+                    changed = True
+        if not consts and not changed:
+            return f
         # a setattr with a computed name may rebind any attribute: only plain constants of the class are trusted then
         if dynamic:
             written = {n.args[1].value for k in self.mro(key) if self.classes.get(k) is not None for n in ast.walk(self.classes[k])
